@@ -257,6 +257,20 @@ def libOp (f : String) (a : List String) : Option String :=
       | some (v, rest) => toString v ++ " " ++ toString (b.length - rest.length)
       | none => "-"
   | "lebw", [n] => n.toNat?.bind fun n => if n < usizeBound then some (hx (lebWrite n)) else none
+  | "strtab", strs =>
+    match strs.mapM unhex with
+    | some bs =>
+      if bs.all validUtf8 then
+        let (t, offs) := bs.foldl (fun (acc : StrTab × List Nat) s =>
+          let (t', o) := acc.1.insert s
+          (t', acc.2 ++ [o])) (StrTab.empty, [])
+        some ("[" ++ joinWith "," (offs.map toString) ++ "] " ++ hx t.bytes)
+      else none
+    | none => none
+  | "strread", [x, off] =>
+    match unhex x, off.toNat? with
+    | some b, some off => some (optS hx (readString b off))
+    | _, _ => none
   | _, _ => none
 
 /-! ### one operation -/
